@@ -22,6 +22,13 @@ sphere_cap_area, sphere_edge_area, sphere_corner_area, arclen_2d_bounded,
 area_3d_bounded; _protect_mask analysed) into coq/Gen/static_geom.v on every run;
 Proofs/StaticGen.v proves each generated function equal to the hand-written model
 and Properties/C19.v restates the headline theorem about the generated function.
+Tie (route T, the pair-correlation functions): tools/py2coq_paircorr.py re-translates
+pair_correlation_2d / pair_correlation_3d (boundary branch, filter, density, p_indices,
+r_edges, kd-tree query, both guards, mask, handle_edge branch, histogram,
+normalisation) into coq/Gen/paircorr.v over the named primitives of
+Model/PyPairCorr.v; Proofs/StaticPairCorrGen.v proves the generated functions equal
+to pair_correlation_sel under the interpretation PairCorrI wherever they do not
+raise, and Properties/C19.v restates the g(r) theorems for them.
 A translation error or a proof that no longer closes goes through
 chk.proof_broken; the run then doubles the direct comparison of the
 implementation with the independent geometric reference, so that a concrete
@@ -37,6 +44,8 @@ from common import cnat, cZ, cQ, cN, clist, copt
 IMPORTS = "From TP Require Import Model.StaticCluster Model.StaticPairCorr Model.StaticPairCorrSel."
 TRANSLATOR = os.path.join(common.VERIF, 'tools', 'py2coq_static.py')
 GEN = os.path.join(common.COQ, 'Gen', 'static_geom.v')
+TRANSLATOR_PC = os.path.join(common.VERIF, 'tools', 'py2coq_paircorr.py')
+GEN_PC = os.path.join(common.COQ, 'Gen', 'paircorr.v')
 
 CL_CODES = {0: 'ok', 1: 'wrong number of labels/sizes', 2: 'cluster labels are not the connectivity partition (features within separation chains labelled differently, or unconnected features labelled alike)',
             3: 'cluster_size is not the size of the connected component', 4: 'a cluster id is reused in two frames'}
@@ -52,22 +61,24 @@ def F(x):
 # ---------------------------------------------------------------------------
 # translator / build
 # ---------------------------------------------------------------------------
-def regenerate(chk):
-    """re-run the translator on the current source; returns (ok, text-or-log)"""
-    rc, out = common.sh([sys.executable, TRANSLATOR, '--repo', common.REPO, '--stdout'], timeout=60)
+def regenerate(chk, translator=None, gen=None):
+    """re-run a translator on the current source; returns (ok, text-or-log)"""
+    translator, gen = translator or TRANSLATOR, gen or GEN
+    label = 'Gen/' + os.path.basename(gen)
+    rc, out = common.sh([sys.executable, translator, '--repo', common.REPO, '--stdout'], timeout=60)
     if rc != 0:
         return False, out
     with common.Lock(os.path.join(common.COQ, '.build.lock')):
-        old = open(GEN).read() if os.path.exists(GEN) else None
+        old = open(gen).read() if os.path.exists(gen) else None
         if old != out:
-            os.makedirs(os.path.dirname(GEN), exist_ok=True)
-            tmp = GEN + '.tmp%d' % os.getpid()
+            os.makedirs(os.path.dirname(gen), exist_ok=True)
+            tmp = gen + '.tmp%d' % os.getpid()
             with open(tmp, 'w') as f:
                 f.write(out)
-            os.replace(tmp, GEN)
-            chk.tally('Gen/static_geom.v rewritten (source differs from last run)')
+            os.replace(tmp, gen)
+            chk.tally('%s rewritten (source differs from last run)' % label)
         else:
-            chk.tally('Gen/static_geom.v unchanged')
+            chk.tally('%s unchanged' % label)
     return True, out
 
 
@@ -89,30 +100,40 @@ def ensure_models(chk):
 
 
 def build(chk):
-    """translator -> cone of Properties/C19.v.  False when the translation or a proof failed."""
+    """translators -> cone of Properties/C19.v.  False when a translation or a proof failed."""
     ok, text = regenerate(chk)
     if not ok:
         chk.proof_broken('translation tools/py2coq_static.py (an edge-correction function left the translatable subset)', text)
+    ok_pc, text_pc = regenerate(chk, TRANSLATOR_PC, GEN_PC)
+    if not ok_pc:
+        chk.proof_broken('translation tools/py2coq_paircorr.py (pair_correlation_2d / pair_correlation_3d left the translatable subset)', text_pc)
+    if not (ok and ok_pc):
         chk.build = dict(obligations=0, discharged=0, assumptions=[], files=[], theorems=[])
         return False
     for attempt in range(3):
         b = chk.coq()
-        cur = open(GEN).read()
-        if cur == text:
+        if open(GEN).read() == text and open(GEN_PC).read() == text_pc:
             break
-        # another run (different TRACKPY_REPO) rewrote the generated file in between: redo
+        # another run (different TRACKPY_REPO) rewrote a generated file in between: redo
         chk.violations = [v for v in chk.violations if not v[0].startswith('proof:')]
         regenerate(chk)
+        regenerate(chk, TRANSLATOR_PC, GEN_PC)
     chk.notes.append('Gen/static_geom.v sha1 %s generated from %s' % (hashlib.sha1(text.encode()).hexdigest()[:12], common.REPO))
+    chk.notes.append('Gen/paircorr.v sha1 %s generated from %s' % (hashlib.sha1(text_pc.encode()).hexdigest()[:12], common.REPO))
     if not b['ok']:
         # say which re-proof about the generated functions fails (the generic report only names the first stale file)
-        with common.Lock(os.path.join(common.COQ, '.build.lock')):
-            rc, out = common.sh('timeout 600 make Proofs/StaticGen.vo 2>&1 | tail -40', timeout=630, cwd=common.COQ)
-            vo, gvo = os.path.join(common.COQ, 'Proofs', 'StaticGen.vo'), os.path.join(common.COQ, 'Gen', 'static_geom.vo')
-            stale = not (os.path.exists(vo) and os.path.exists(gvo) and os.path.getmtime(vo) >= os.path.getmtime(gvo))
-        if stale and open(GEN).read() == text:
-            chk.violations = [v for v in chk.violations if not v[0].startswith('proof:')]
-            chk.proof_broken('Proofs/StaticGen.v (a function generated from the current trackpy/static.py no longer equals the model the geometry theorems are about)', out)
+        for proof, gen, cur, what in (
+                ('StaticGen', GEN, text, 'a function generated from the current trackpy/static.py no longer equals the model the geometry theorems are about'),
+                ('StaticPairCorrGen', GEN_PC, text_pc, 'pair_correlation_2d / _3d generated from the current trackpy/static.py no longer equal the '
+                                                       'hand-written pair_correlation_sel under the interpretation Model/PyPairCorr.v')):
+            with common.Lock(os.path.join(common.COQ, '.build.lock')):
+                rc, out = common.sh('timeout 600 make Proofs/%s.vo 2>&1 | tail -40' % proof, timeout=630, cwd=common.COQ)
+                vo, gvo = os.path.join(common.COQ, 'Proofs', proof + '.vo'), gen[:-2] + '.vo'
+                stale = not (os.path.exists(vo) and os.path.exists(gvo) and os.path.getmtime(vo) >= os.path.getmtime(gvo))
+            if stale and open(gen).read() == cur:
+                chk.violations = [v for v in chk.violations if not v[0].startswith('proof:')]
+                chk.proof_broken('Proofs/%s.v (%s)' % (proof, what), out)
+                break
     return bool(b['ok'])
 
 
@@ -1135,6 +1156,10 @@ def run(chk):
         "Gen/static_geom.v is produced by tools/py2coq_static.py (trusted translator, fail-closed; conventions in its docstring: one point of the numpy vector code over R, "
         "acc[mask] -= v read as acc - (if mask then v else 0), _protect_mask checked by abstract evaluation to be the elementwise conditional, 10**-5 / 10**-7 as exact "
         "reals, NaN as None; acos / asin / sqrt / division are total in Coq: the generated functions speak for the code where numpy stays in the domains, i.e. centre in the closed box, dist > 0)",
+        "Gen/paircorr.v is produced by tools/py2coq_paircorr.py (trusted translator, fail-closed) over the record of named numpy / pandas / scipy primitives of Model/PyPairCorr.v; "
+        "what the primitives mean is the interpretation PairCorrI of that file (floats as exact rationals, distances squared, the kd-tree query = all particles strictly within cutoff of each "
+        "reference particle in table order padded with inf to max_p_count columns, LibraryError for max_p_count <= 1, np.random.randint an oracle, np.pi any rational, 2 pi sqrt(d2) left open): "
+        "that numpy / pandas / scipy behave like the interpretation is exercised by the g(r) correspondence runs, not proved",
         "pair_correlation refuses (RuntimeError, or IndexError/ValueError when its neighbour estimate max_p_count <= 1) instead of returning g(r) on sparse inputs; counted, not compared",
     ]
 
